@@ -29,6 +29,7 @@ type oracle struct {
 	shape   string
 	table   [][]byte // one 256-byte image per slot of .BRD
 	users   [][]byte // C strings, uid = index+1
+	levels  []uint32 // the UserLevel column of .PASSWDS
 	letters map[byte]bool
 	dirs    map[string]bool
 	noted   map[string]bool
@@ -75,8 +76,13 @@ func (p *oracle) reset(r *resetSpec, now *snapshot) {
 	for i := 0; i < n; i++ {
 		p.table = append(p.table, append([]byte(nil), now.brd[i*RECSZ:(i+1)*RECSZ]...))
 	}
-	for _, u := range r.users {
+	for k, u := range r.users {
 		p.users = append(p.users, cstrOf(u))
+		l := uint32(0)
+		if k < len(r.levels) {
+			l = r.levels[k]
+		}
+		p.levels = append(p.levels, l)
 	}
 	for _, c := range r.letters {
 		p.letters[c] = true
@@ -142,10 +148,11 @@ func (p *oracle) userUID(id []byte) int {
 }
 
 type expectation struct {
-	class string // "ok" or the refusal
-	img   []byte // expected header (accepted)
-	mods  []int  // uids of the requested moderators that exist, in order
-	name  []byte // C string of the requested name
+	class  string // "ok" or the refusal
+	img    []byte // expected header (accepted)
+	mods   []int  // uids of the requested moderators that exist, in order
+	name   []byte // C string of the requested name
+	parent bool   // refused because the parent is vacated / beyond the table / not a group board
 }
 
 func (p *oracle) decide(q *request) *expectation {
@@ -154,10 +161,15 @@ func (p *oracle) decide(q *request) *expectation {
 		e.class = "invalid-bid"
 		return e
 	}
-	var parentBM []byte
-	if int(q.cls)-1 < len(p.table) {
-		parentBM = cstrOf(p.table[q.cls-1][offBM : offBM+39])
+	// the parent must be an existing group board: in the table, not vacated, BRD_GROUPBOARD set
+	pk := int(q.cls) - 1
+	if pk >= len(p.table) || len(nameOf(p.table[pk])) == 0 ||
+		binary.LittleEndian.Uint32(p.table[pk][offAttr:])&uint32(ptttype.BRD_GROUPBOARD) == 0 {
+		e.class = "invalid-bid"
+		e.parent = true
+		return e
 	}
+	parentBM := cstrOf(p.table[pk][offBM : offBM+39])
 	listed := false
 	me := cstrOf(pad(q.user, 13))
 	for _, seg := range bytes.Split(parentBM, []byte{'/'}) {
@@ -518,16 +530,6 @@ func (p *oracle) judge(i int, line string, q *request, res string, slot int, bef
 	if len(gotDirs) != len(wantDirs) || !gotDirs[string(e.name)] {
 		run.Fail(i, "dirs", fmt.Sprintf("%s: boards/ listing is %s", what, dirNames(now.dirs)))
 	}
-	// observations (reported, not judged)
-	pk := int(q.cls) - 1
-	switch {
-	case pk >= len(p.table):
-		p.note("parent-beyond", fmt.Sprintf("parent not judged: %s was accepted although the parent slot %d lies beyond the %d existing slots", describe(q), q.cls, len(p.table)))
-	case len(nameOf(p.table[pk])) == 0:
-		p.note("parent-vacated", fmt.Sprintf("parent not judged: %s was accepted although the parent slot %d is vacated", describe(q), q.cls))
-	case binary.LittleEndian.Uint32(p.table[pk][offAttr:])&uint32(ptttype.BRD_GROUPBOARD) == 0:
-		p.note("parent-nongroup", fmt.Sprintf("parent not judged: %s was accepted although the parent %q is not a group board", describe(q), nameOf(p.table[pk])))
-	}
 	p.table = newTable
 	p.dirs[string(e.name)] = true
 	if hiddenHack {
@@ -557,6 +559,70 @@ func (p *oracle) judgeNewBM(i int, line string, ids [][]byte, out string, bm *pt
 	if !bytes.Equal(bm[:], pad(want, len(bm))) {
 		run.Fail(i, "newbm", fmt.Sprintf("ptttype.NewBM(%s) = %q, expected %q", dirNames(ids), cstrOf(bm[:]), want))
 	}
+}
+
+// judgeBbs: bbs.CreateBoard = the wrapper's own refusals (caller id not a valid user id; no such user), else
+// ptt.NewBoard for that user's .PASSWDS record (SYSOP gets the admin level, guest level 0), the first 13 bytes
+// of the name and the '/'-joined moderator ids that fit.
+func (p *oracle) judgeBbs(i int, line string, a *bbsArgs, res string, slot int, before, now *snapshot) string {
+	if !p.have {
+		return "nostate"
+	}
+	if !p.judged {
+		return "unjudged"
+	}
+	what := fmt.Sprintf("bbs.CreateBoard(user %q, parent %d, name %q, BMs %s)", a.userID, a.cls, a.name, dirNames(a.bms))
+	exp := ""
+	uid := 0
+	me := cstrOf(pad(a.userID, 13)) // the id as a UserID_t reads it
+	if !reValidUser.Match(me) {
+		exp = "invalid-params"
+	} else if uid = p.userUID(me); uid == 0 {
+		exp = "invalid-user"
+	}
+	if exp != "" {
+		if res != exp {
+			key := "result:" + exp
+			if res == "PANIC" || res == "TIMEOUT" {
+				key = "crash:createboard"
+			}
+			run.Fail(i, key, fmt.Sprintf("%s: expected %s, got %s", what, exp, res))
+		}
+		if d := sideEffects(before, now); len(d) > 0 {
+			run.Fail(i, "refused-sideeffect", fmt.Sprintf("%s: refused (%s) but %s", what, res, strings.Join(d, "; ")))
+		}
+		return "wrapper:" + exp
+	}
+	lvl := p.levels[uid-1]
+	switch string(p.users[uid-1]) {
+	case "guest":
+		lvl = 0
+	case "SYSOP":
+		lvl = 0xffff
+	}
+	var joined []byte
+	for k, id := range a.bms {
+		add := cstrOf(pad(id, 13))
+		if k > 0 {
+			add = append([]byte{'/'}, add...)
+		}
+		if len(joined)+len(add) > 38 {
+			break
+		}
+		joined = append(joined, add...)
+	}
+	nm := a.name
+	if len(nm) > 13 {
+		nm = nm[:13]
+	}
+	q := &request{user: p.users[uid-1], ulevel: lvl, uid: int32(uid), cls: a.cls, name: nm, bclass: a.bclass, btitle: a.btitle,
+		bms: joined, attr: a.attr, level: a.level, chess: a.chess, isGroup: a.isGroup}
+	if (res == "PANIC" || res == "TIMEOUT") && len(bytes.Join(a.bms, []byte{'/'})) > 38 {
+		run.Fail(i, "crash:newbm", fmt.Sprintf("%s: %s (%s)", what, res, hx.LastPanic))
+		p.judged, p.why = false, "crashed"
+		return "crash"
+	}
+	return p.judge(i, line, q, res, slot, before, now)
 }
 
 func recAt(f []byte, j int) []byte {
